@@ -450,11 +450,14 @@ Fixpoint run1 (st : state) (h : list event) : state * list obs :=
    EStatus/EIter = _dbus_connection_flush_unlocked, EBlockCheck = the first
    check_for_reply, then per round EIter = one blocking do_iteration and
    EBlockStep = one pass of recheck_status. *)
-Inductive pmsg := PM (k : pkind) (target : nat + N) (tag : N).   (* inl i: reply serial of call i; inr s: literal *)
+Inductive pmsg :=
+| PM (k : pkind) (target : nat + N) (tag : N)   (* inl i: reply serial of call i; inr s: literal *)
+| PClose.                                        (* the peer closes its end after what it has written so far *)
 Definition peer_events (b : list pmsg) : list event :=
   map (fun p => match p with
                 | PM k (inl i) tag => EPeerReply k i tag
                 | PM k (inr rs) tag => EPeer k rs tag
+                | PClose => EPeerClose
                 end) b.
 
 Definition would_wait (st : state) : bool :=
